@@ -113,6 +113,7 @@ func ZZ_C03_Dispatch() {
 	rl := zzSession(script)
 	firedCmd, firedAt := -1, -1
 	nfired := 0
+	var allCmd, allAt []int
 	delivered := 0
 	wait := 0
 	script.OnWait = func() {
@@ -125,6 +126,8 @@ func ZZ_C03_Dispatch() {
 				binds[string(table[t])] = inputrc.Bind{Action: name}
 				cmds[name] = func() {
 					nfired++
+					allCmd = append(allCmd, t)
+					allAt = append(allAt, delivered-1)
 					if firedCmd < 0 {
 						firedCmd, firedAt = t, delivered-1
 					}
@@ -140,10 +143,7 @@ func ZZ_C03_Dispatch() {
 			delivered++
 		}
 		wait++
-		if wait > 1 && firedCmd >= 0 && wantAt >= 0 && delivered > wantAt+1 {
-			// the first resolution is over: stop the session here
-			panic(zzStop{})
-		}
+
 	}
 	func() {
 		defer func() {
@@ -169,6 +169,42 @@ func ZZ_C03_Dispatch() {
 				sfx = "/table-with-esc-or-meta"
 			}
 		}
+	}
+	// every command that ever fires must be justified by the keys typed: its sequence was
+	// typed, ending at the key at which it fires, or one key earlier (a shorter binding firing
+	// when the next key ruled the longer ones out)
+	for i := range allCmd {
+		w := wire[allCmd[i]]
+		at := allAt[i]
+		ok := false
+		for s := 0; s <= at && !ok; s++ {
+			// exact: the sequence ends at the key at which the command fires
+			if at-s+1 == len(w) && string(keys[s:at+1]) == string(w) {
+				ok = true
+				break
+			}
+			// shortened: the sequence was typed from s, the keys after it kept a longer
+			// binding alive up to the key before `at`, and the key at `at` ruled it out
+			e := s + len(w) - 1
+			if e < at && string(keys[s:e+1]) == string(w) {
+				alive := false
+				for t := 0; t < T; t++ {
+					if len(wire[t]) > at-s && zzHasPrefix(wire[t], keys[s:at]) {
+						alive = true
+					}
+				}
+				dead := true
+				for t := 0; t < T; t++ {
+					if zzHasPrefix(wire[t], keys[s:at+1]) {
+						dead = false
+					}
+				}
+				if alive && dead {
+					ok = true
+				}
+			}
+		}
+		zzverif.Assert(ok, "no-command-bound-to-a-different-sequence"+sfx)
 	}
 	if wantCmd >= 0 {
 		zzverif.Reach("some-binding-fires")
